@@ -17,6 +17,14 @@ func main() {
 		cmdVerify(os.Args[2:])
 	case "check":
 		cmdCheck(os.Args[2:])
+	case "replay-conc":
+		o, log, err := replayConc("/repo", os.Args[2])
+		fmt.Println(o, err)
+		if o == nil {
+			fmt.Println(trunc(log, 3000))
+		} else {
+			fmt.Printf("%+v\n", *o)
+		}
 	default:
 		fmt.Println("unknown command")
 		os.Exit(2)
